@@ -27,6 +27,18 @@ pub struct Case {
     /// after the first session (and the silent second one) both sides change again and are reconciled once more
     #[serde(default)]
     pub phase2: Option<Phase2>,
+    /// a crowd: besides their generated entries the two sides hold `CROWD[class_a]` / `CROWD[class_b]` entries of one author
+    /// at the keys `'z' || i` (A: i < n_a, B: offset <= i < offset + n_b; every seventh of B's has other content) - deep
+    /// recursion, hundreds of messages, long item lists; one initiator (by the parity of the offset), no second phase
+    #[serde(default)]
+    pub crowd: Option<(u8, u8, u16)>,
+}
+
+/// sizes around which a byte-sized counter, a chunked scan or a two-byte length prefix would show
+pub const CROWD: [usize; 8] = [0, 127, 255, 256, 257, 1023, 1024, 1025];
+
+fn crowd_entry(nssec: &iroh_docs::NamespaceSecret, a: u8, j: usize, other_content: bool) -> SignedEntry {
+    sign(nssec, &ESpec { a, k: vec![b'z', (j >> 8) as u8, j as u8], t: T0 + 1, c: if other_content { 2 } else { 1 } })
 }
 
 #[derive(Serialize, Deserialize, Clone, Debug)]
@@ -62,7 +74,7 @@ impl Prop for C01 {
         // thorough: one pair in 50 with up to 160 entries per side (deeper range recursion)
         let big = tier.pick(12, 160);
         let side = move || prop_oneof![49 => vec(egen(), 0..=max), 1 => vec(egen(), 0..=big)];
-        (
+        let base = (
             pools(8),
             side(),
             side(),
@@ -73,8 +85,12 @@ impl Prop for C01 {
             prop::option::weighted(0.3, (prop::bool::weighted(0.3), prop::bool::weighted(0.3), vec(egen(), 0..=6), vec(egen(), 0..=6), any::<bool>()))
                 .prop_map(|p| p.map(|(recreate_a, recreate_b, a, b, reopen)| Phase2 { recreate_a, recreate_b, a, b, reopen })),
         )
-            .prop_map(|(pools, a, b, file_a, file_b, config, others, phase2)| Case { pools, a, b, file_a, file_b, config, others, phase2 })
-            .boxed()
+            .prop_map(|(pools, a, b, file_a, file_b, config, others, phase2)| Case { pools, a, b, file_a, file_b, config, others, phase2, crowd: None })
+            .boxed();
+        let max_small = 6usize;
+        let crowd = (pools(6), vec(egen(), 0..=max_small), vec(egen(), 0..=max_small), prop::bool::weighted(0.1), prop::bool::weighted(0.1), sync_config(), (0u8..8, 0u8..8, prop_oneof![Just(0u16), 0u16..1200]))
+            .prop_map(|(pools, a, b, file_a, file_b, config, crowd)| Case { pools, a, b, file_a, file_b, config, others: vec![], phase2: None, crowd: Some(crowd) });
+        prop_oneof![600 => base, 1 => crowd].boxed()
     }
 
     fn check(ctx: &mut Ctx, case: &Case) -> Outcome {
@@ -131,13 +147,40 @@ fn classify(o: &mut Outcome, ma: &Model, mb: &Model) {
     }
 }
 
+/// like `describe_all`, but a crowd is summarised by its size
+fn brief(v: &[SignedEntry]) -> String {
+    if v.len() > 60 {
+        format!("[{} entries, the first {} and the last {}]", v.len(), describe(&v[0]), describe(&v[v.len() - 1]))
+    } else {
+        describe_all(v)
+    }
+}
+
+/// entries of `a` that are missing in `b`, abbreviated
+fn missing(a: &[SignedEntry], b: &[SignedEntry]) -> String {
+    let d: Vec<SignedEntry> = a.iter().filter(|e| !b.contains(e)).take(6).cloned().collect();
+    describe_all(&d)
+}
+
 fn check(ctx: &mut Ctx, c: &Case, o: &mut Outcome) -> R<()> {
     let keys = c.pools.keys();
     let authors = c.pools.authors();
     let nssec = namespace(c.pools.ns).clone();
     let ns = nssec.id();
     let ea: Vec<SignedEntry> = c.a.iter().map(|e| sign(&nssec, &to_espec(e, &authors, &keys))).collect();
-    let eb: Vec<SignedEntry> = c.b.iter().map(|e| sign(&nssec, &to_espec(e, &authors, &keys))).collect();
+    let mut ea = ea;
+    let mut eb: Vec<SignedEntry> = c.b.iter().map(|e| sign(&nssec, &to_espec(e, &authors, &keys))).collect();
+    let mut initiators = vec![true, false];
+    if let Some((ca, cb, off)) = c.crowd {
+        let (na, nb, off) = (CROWD[ca as usize % CROWD.len()], CROWD[cb as usize % CROWD.len()], off as usize);
+        ea.extend((0..na).map(|j| crowd_entry(&nssec, authors[0], j, false)));
+        eb.extend((off..off + nb).map(|j| crowd_entry(&nssec, authors[0], j, j % 7 == 0)));
+        initiators = vec![off % 2 == 0];
+        o.class("crowd(up-to-1025-entries-per-side)");
+        if na + nb >= 255 {
+            o.nontrivial = true;
+        }
+    }
     verif::set_clock(Some(T0 + 3));
     verif::set_sync_config(c.config);
     o.class(if c.config.is_none() { "config/default" } else { "config/other" });
@@ -147,7 +190,7 @@ fn check(ctx: &mut Ctx, c: &Case, o: &mut Outcome) -> R<()> {
         _ => "stores/mixed",
     });
     let bound = 4 * (ea.len() + eb.len()) + 8;
-    for initiator_is_a in [true, false] {
+    for initiator_is_a in initiators {
         let mut sa = AnyStore::new(ctx, c.file_a)?;
         let mut sb = AnyStore::new(ctx, c.file_b)?;
         let ma = populate(&ctx.rt, &mut sa.store, &nssec, &ea)?;
@@ -191,6 +234,9 @@ fn check(ctx: &mut Ctx, c: &Case, o: &mut Outcome) -> R<()> {
             run_session(&ctx.rt, &mut sb.store, &mut sa.store, ns, bound + 1)?
         };
         let ctxs = || {
+            if da.len() + db.len() > 80 {
+                return format!("{label}, config {:?}, crowd {:?}, A holds {} entries, B holds {}", c.config, c.crowd, da.len(), db.len());
+            }
             format!(
                 "{label}, config {:?}, A = {}, B = {}",
                 c.config,
@@ -211,11 +257,11 @@ fn check(ctx: &mut Ctx, c: &Case, o: &mut Outcome) -> R<()> {
         let fa = dump(&mut sa.store, ns)?;
         let fb = dump(&mut sb.store, ns)?;
         if fa != fb {
-            o.fail("C01/diverged", format!("after one session A holds {} and B holds {}; {}", describe_all(&fa), describe_all(&fb), ctxs()));
+            o.fail("C01/diverged", format!("after one session A holds {} and B holds {} (only in A: {}; only in B: {}); {}", brief(&fa), brief(&fb), missing(&fa, &fb), missing(&fb, &fa), ctxs()));
             break;
         }
         if fa != want {
-            o.fail("C01/not-the-merge", format!("both hold {} but the merge is {}; {}", describe_all(&fa), describe_all(&want), ctxs()));
+            o.fail("C01/not-the-merge", format!("both hold {} but the merge is {} (held but not in the merge: {}; in the merge but not held: {}); {}", brief(&fa), brief(&want), missing(&fa, &want), missing(&want, &fa), ctxs()));
             break;
         }
         if t.init_out.num_sent != t.resp_out.num_recv || t.init_out.num_recv != t.resp_out.num_sent {
